@@ -45,7 +45,7 @@ pub(crate) fn new<T>(value: &[UnsafeSyncCell<T>]) -> *mut UnsafeSyncCell<T> {
         );
 
         let r = buffer as *mut UnsafeSyncCell<T>;
-        libc::memcpy(value.as_ptr() as _, r as _, size_of_val(value));
+        libc::memcpy(r as _, value.as_ptr() as _, size_of_val(value));
         
         r
     }
